@@ -188,7 +188,7 @@ def execute(sc) -> Result:
     PLAN["explicit_false"] = bool(plan.get("leftover_freq_steps", 0) % 2)
     if plan.get("omit_ibm"):
         sc["ibm"] = {}
-        for v in ("age", "weight"):
+        for v in ("age", "weight", "dose"):
             sc["output"]["ivars"].pop(v, None)
     nfiles = len(world.frame_partition(sc))
     res.history_key = "|".join(map(str, (bool(sc["release"].get("continuous")), [c["name"] for c in sc["release"]["extra"]],
